@@ -58,3 +58,10 @@ func planFor(c *ExecCase) (string, error) {
 	fmt.Fprintf(&b, "SCRUB %s\n", sf)
 	return b.String(), nil
 }
+
+func maxInt(a, b int) int {
+	if a > b {
+		return a
+	}
+	return b
+}
